@@ -5,6 +5,7 @@ MODULES = [
     "contracts.obs_init",
     "contracts.obs_derived",
     "contracts.corr",
+    "contracts.readers",
     "contracts.dirac",
     "contracts.special",
 ]
